@@ -11,17 +11,64 @@ package main
 import (
 	"encoding/hex"
 	"fmt"
+	"os"
 	"sort"
 	"strconv"
 	"strings"
+	"sync/atomic"
+	"time"
 
 	"github.com/256dpi/gomqtt/topic"
 
 	"verifh/hx"
 )
 
+// Liveness: every call into the tree returns.  The harness counts its calls; a watchdog goroutine
+// reports when nothing has returned for `stuckAfter` (a call takes microseconds) — e.g. a method that
+// leaves the mutex locked on some path — as a property failure with the call that never came back,
+// instead of hanging (several goroutines) or dying with "all goroutines are asleep" (one).
+var progress int64
+var lastCall atomic.Value
+
+const stuckAfter = 20 * time.Second
+
+func tick(what string) {
+	lastCall.Store(what)
+	atomic.AddInt64(&progress, 1)
+}
+
+func watchdog(c *hx.Ctx) {
+	go func() {
+		last, since := int64(-1), time.Now()
+		for {
+			time.Sleep(500 * time.Millisecond)
+			now := atomic.LoadInt64(&progress)
+			if now != last {
+				last, since = now, time.Now()
+				continue
+			}
+			if now > 0 && time.Since(since) > stuckAfter {
+				what, _ := lastCall.Load().(string)
+				c.Emit("direct liveness FAIL no call into the tree has returned for %v; last call started or finished: %s", stuckAfter, strings.ReplaceAll(what, " ", "_"))
+				c.Out.Flush()
+				fmt.Println("stat stuck=1")
+				os.Exit(0)
+			}
+		}
+	}()
+}
+
+func withWatchdog(f func(*hx.Ctx)) func(*hx.Ctx) {
+	return func(c *hx.Ctx) {
+		watchdog(c)
+		f(c)
+		atomic.StoreInt64(&progress, 0) // finished: the watchdog stays quiet while the output is written
+	}
+}
+
 func main() {
-	hx.Main(map[string]func(*hx.Ctx){"c04": runC04, "c05": runC05, "c05conc": runC05Conc, "c05lin": runC05Lin, "parse": runParse})
+	hx.Main(map[string]func(*hx.Ctx){"c04": withWatchdog(runC04), "c05": withWatchdog(runC05), "c05conc": withWatchdog(runC05Conc),
+		"c05lin": withWatchdog(runC05Lin), "parse": runParse})
 }
 
 func hexs(s string) string {
@@ -42,14 +89,52 @@ func unhex(s string) string {
 	return string(b)
 }
 
-// vals renders a result slice: ints joined by '.', "-" when empty; anything that is not an int is "?".
+// Values.  In the exchange files a value is a number.  Most numbers stand for themselves (Go ints);
+// a few stand for values that test Go's == on interface{}: 900001 and 900002 are two DISTINCT pointers
+// to equal structs (the broker stores pointers: identity, not content, decides), 900003 is a string.
+type boxed struct{ n int }
+
+var twinA, twinB = &boxed{7}, &boxed{7}
+
+func val(id int) interface{} {
+	switch id {
+	case 900001:
+		return twinA
+	case 900002:
+		return twinB
+	case 900003:
+		return "7"
+	}
+	return id
+}
+
+func idOf(v interface{}) (int, bool) {
+	switch x := v.(type) {
+	case int:
+		return x, true
+	case *boxed:
+		if x == twinA {
+			return 900001, true
+		}
+		if x == twinB {
+			return 900002, true
+		}
+	case string:
+		if x == "7" {
+			return 900003, true
+		}
+	}
+	return 0, false
+}
+
+// vals renders a result slice: value numbers joined by '.', "-" when empty; anything that was never stored is "?".
 func vals(l []interface{}) string {
 	if len(l) == 0 {
 		return "-"
 	}
 	parts := make([]string, len(l))
 	for i, v := range l {
-		if n, ok := v.(int); ok {
+		if n, ok := idOf(v); ok {
 			parts[i] = strconv.Itoa(n)
 		} else {
 			parts[i] = "?"
@@ -61,9 +146,9 @@ func vals(l []interface{}) string {
 // sortedVals is vals after sorting (results whose order depends on Go's map iteration).
 func sortedVals(l []interface{}) string {
 	c := append([]interface{}{}, l...)
-	sort.Slice(c, func(i, j int) bool {
-		a, aok := c[i].(int)
-		b, bok := c[j].(int)
+	sort.SliceStable(c, func(i, j int) bool {
+		a, aok := idOf(c[i])
+		b, bok := idOf(c[j])
 		if aok && bok {
 			return a < b
 		}
@@ -76,15 +161,22 @@ func first(v interface{}) string {
 	if v == nil {
 		return "-"
 	}
-	if n, ok := v.(int); ok {
+	if n, ok := idOf(v); ok {
 		return strconv.Itoa(n)
 	}
 	return "?"
 }
 
+// A tree built with topic.NewTree(".", "*", ">") must behave like the standard tree under the
+// renaming '/' -> '.', '+' -> '*', '#' -> '>' (the generated topics never contain '.', '*', '>').
+var toCustom = strings.NewReplacer("/", ".", "+", "*", "#", ">")
+var fromCustom = strings.NewReplacer(".", "/", "*", "+", ">", "#")
+
+func ident(s string) string { return s }
+
 // shape parses Tree.String() into the sorted list "<path>=<number of values>" of all
 // non-root nodes (path levels in hex, joined by '/'): the canonical form of the printed tree.
-func shape(s string) string {
+func shape(s string, unmap func(string) string) string {
 	lines := strings.Split(s, "\n")
 	if len(lines) == 0 || lines[0] != "topic.Tree:" {
 		return "BAD(" + hexs(s) + ")"
@@ -105,7 +197,7 @@ func shape(s string) string {
 		if !strings.HasPrefix(rest, "'") || i < 0 || depth > len(stack) {
 			return "BAD(" + hexs(s) + ")"
 		}
-		key := rest[1:i]
+		key := unmap(rest[1:i])
 		cnt := rest[i+5:]
 		stack = append(stack[:depth], hexs(key))
 		out = append(out, strings.Join(stack, "/")+"="+cnt)
@@ -152,17 +244,19 @@ func parseOp(s string) op {
 }
 
 func apply(t *topic.Tree, o op) {
+	tick(o.text())
+	defer tick(o.text() + " returned")
 	switch o.kind {
 	case 'A':
-		t.Add(o.topic, o.val)
+		t.Add(o.topic, val(o.val))
 	case 'S':
-		t.Set(o.topic, o.val)
+		t.Set(o.topic, val(o.val))
 	case 'R':
-		t.Remove(o.topic, o.val)
+		t.Remove(o.topic, val(o.val))
 	case 'E':
 		t.Empty(o.topic)
 	case 'C':
-		t.Clear(o.val)
+		t.Clear(val(o.val))
 	case 'X':
 		t.Reset()
 	}
